@@ -318,6 +318,10 @@ inductive Res where
   | skip
   | forwarded (src addr : String)   -- dedicated cross-node connection opened to `addr`, the address of node `src`
   | errNoAddr                       -- the source node has no usable address
+  | localAttached                   -- the source bridge is on this very node: the target was attached to it
+  | localWait                       -- the record names this node but it has no such bridge (it waits for one)
+  | pending                         -- the polling lookup has not found the id yet and keeps polling
+  | timeout                         -- the polling lookup gave up (its context ended)
 deriving DecidableEq, Repr
 
 def registerWaitingTunnel (cfg : Cfg) (w : World) (n : Nat) (r : Rec) : World × Res :=
@@ -405,10 +409,52 @@ def forwardTarget (cfg : Cfg) (w : World) (n : Nat) (tid : String) : World × Re
   match (lookupWaitingTunnel cfg w n tid).2 with
   | .found r =>
     ((lookupWaitingTunnel cfg w n tid).1,
-      match getNodeAddress cfg (lookupWaitingTunnel cfg w n tid).1 n r.sourceNodeID with
-      | .addr a => .forwarded r.sourceNodeID a
-      | _ => .errNoAddr)
+      -- processCrossNodeForward: the source node is this node ⇒ handleLocalBridgeWait, else forwardToSourceNode
+      if r.sourceNodeID == nodeName n then
+        (if (lookupWaitingTunnel cfg w n tid).1.bridges n tid then .localAttached else .localWait)
+      else
+        match getNodeAddress cfg (lookupWaitingTunnel cfg w n tid).1 n r.sourceNodeID with
+        | .addr a => .forwarded r.sourceNodeID a
+        | _ => .errNoAddr)
   | res => ((lookupWaitingTunnel cfg w n tid).1, res)
+
+/-! ## Polling lookup of the target node
+
+`cross_node_session.go` `lookupTunnelRouting`: look up; *found* ends the loop with the record;
+`ErrNotFound` / `ErrExpired` mean "not yet" (sleep 50 → 100 → 200 ms, try again) until the context
+ends; any other error ends the loop as a storage error.  A polling lookup is split into two events so
+that a history can put anything between two of its polls: `pollStart … k` runs the first `k` polls,
+`pollEnd` runs one more poll and then lets the context end. -/
+
+def pollLoop (cfg : Cfg) (n : Nat) (tid : String) : Nat → World → World × Res
+  | 0, w => (w, .pending)
+  | k + 1, w =>
+    match (lookupWaitingTunnel cfg w n tid).2 with
+    | .notFound => pollLoop cfg n tid k (lookupWaitingTunnel cfg w n tid).1
+    | .expired => pollLoop cfg n tid k (lookupWaitingTunnel cfg w n tid).1
+    | .found r => ((lookupWaitingTunnel cfg w n tid).1, .found r)
+    | _ => ((lookupWaitingTunnel cfg w n tid).1, .errStorage)
+
+def pollEnd (cfg : Cfg) (w : World) (n : Nat) (tid : String) : World × Res :=
+  match (pollLoop cfg n tid 1 w).2 with
+  | .pending => ((pollLoop cfg n tid 1 w).1, .timeout)
+  | res => ((pollLoop cfg n tid 1 w).1, res)
+
+/-! ## Restart of a node (crash: no cleanup runs)
+
+All in-process state of node `n` is lost — its bridge map, and the node-local cache of its tiered
+store — while everything in shared storage stays: the routing records of its tunnels remain until
+removed or lapsed, its address remains registered. -/
+
+def isHybrid : Backend → Bool
+  | .hybridRedis => true
+  | .hybridLocal => true
+  | _ => false
+
+def restartNode (cfg : Cfg) (w : World) (n : Nat) : World :=
+  { w with
+    bridges := fun m t => if m = n then false else w.bridges m t,
+    stores := fun i => if isHybrid cfg.backend ∧ i = n + 1 then (fun _ => none) else w.stores i }
 
 /-! ## Histories -/
 
@@ -424,6 +470,9 @@ inductive Ev where
   | regAddr (n : Nat) (nid addr : String)
   | getAddr (n : Nat) (nid : String)
   | fwd (n : Nat) (tid : String)   -- a target connection for `tid` arrives on node n and is forwarded
+  | pollStart (n : Nat) (tid : String) (k : Nat)
+  | pollEnd (n : Nat) (tid : String)
+  | restart (n : Nat)
 deriving DecidableEq, Repr
 
 def step (cfg : Cfg) (w : World) : Ev → World × Res
@@ -438,6 +487,9 @@ def step (cfg : Cfg) (w : World) : Ev → World × Res
   | .regAddr n nid a => registerNodeAddress cfg w n nid a
   | .getAddr n nid => (w, getNodeAddress cfg w n nid)
   | .fwd n tid => forwardTarget cfg w n tid
+  | .pollStart n tid k => pollLoop cfg n tid k w
+  | .pollEnd n tid => pollEnd cfg w n tid
+  | .restart n => (restartNode cfg w n, .skip)
 
 def runFrom (cfg : Cfg) (w : World) : List Ev → List Res
   | [] => []
